@@ -232,6 +232,11 @@ def msg_rule(txt, shaped=False):
 ROW_LABELS = {"DATA": 0, "TDH": 1, "TDT": 2, "IHW": 3, "DDW": 4, "CDW": 5}
 
 
+def _strip_to_string(expr):
+    """a value rendered through `.to_string()` shows the same content as the value itself"""
+    return re.sub(r"\.to_string\(\)\s*$", "", expr.strip())
+
+
 def _row_tokens(lit, all_args):
     """ordered content of one format literal: label words, captured identifiers, named and positional arguments"""
     named = {}
@@ -254,9 +259,9 @@ def _row_tokens(lit, all_args):
             idx = int(name) if name else k
             if name == "":
                 k += 1
-            out.append(f"&({pos_args[idx]})" if idx < len(pos_args) else "&tok_missing()")
+            out.append(f"&({_strip_to_string(pos_args[idx])})" if idx < len(pos_args) else "&tok_missing()")
         elif name in named:
-            out.append(f"&({named[name]})")
+            out.append(f"&({_strip_to_string(named[name])})")
         else:
             out.append(f"&{name}")
     for w in re.findall(r"\b(DATA|TDH|TDT|IHW|DDW|CDW)\b", lit[i:]):
@@ -271,7 +276,8 @@ def row_rule(txt):
     """row-content rule (unit v_rows): every `format!` / `format_args!` / `writeln!(w, ..)` is replaced by the ordered list
     of what it renders - the word-type label found in the literal (DATA/TDH/TDT/IHW/DDW/CDW), the identifiers captured
     in the literal and the positional arguments, in the order of the literal - as nested `tok_cons(&x, ..)` calls;
-    `writeln!(w, ..)` becomes `emit_row(w, <list>)`. Column widths, spacing and the rest of the literal are dropped."""
+    `writeln!(w, ..)` / `write!(w, ..)` become `emit_row(w, <list>)`; a trailing `.to_string()` on an argument is dropped.
+    Column widths, spacing and the rest of the literal are dropped."""
     while True:
         ms = list(re.finditer(r"\b(format_args|format|writeln|write)!\s*\(", txt))
         if not ms:
